@@ -78,7 +78,7 @@ def gen_module(rng, name, ctr, earlier, p_decl=0.6):
             named.add(n)
     if m["uses"]:
         for n in TY + PR + ["te", "pe"]:
-            if n not in local and rng.random() < 0.25:
+            if n not in local and rng.random() < (0.4 if m["dflt"] == "private" else 0.15):
                 m["stmts"].append(("public", n))
     rng.shuffle(m["stmts"])
     # references: every candidate name, as type(...) / procedure(...) / parent type
@@ -88,9 +88,18 @@ def gen_module(rng, name, ctr, earlier, p_decl=0.6):
     for p in PR + ["pe"]:
         if rng.random() < 0.6:
             m["refs"].append({"k": "pa", "name": p, "id": ctr.slot()})
+    own_types = [d["name"] for d in m["decls"] if d["k"] == "t"]
     for d in m["decls"]:
         if d["k"] == "t":
             m["refs"].append({"k": "ctor", "name": d["name"], "id": ctr.slot()})
+    # parent type of (at most) one local type, type-bound procedures with targets named like the procedures
+    if own_types and rng.random() < 0.6:
+        t = rng.choice(own_types)
+        m["refs"].append({"k": "ext", "of": t, "name": rng.choice([x for x in TY + ["te", "td"] if x != t]), "id": ctr.slot()})
+    for t in own_types:
+        if rng.random() < 0.5:
+            for p in rng.sample(PR + ["pe"], rng.randint(1, 2)):
+                m["refs"].append({"k": "bind", "of": t, "name": p, "id": ctr.slot()})
     return m
 
 
@@ -115,7 +124,9 @@ def gen_project(rng):
     for k in range(n):
         # the first module declares most names, the later ones fewer (so that a name is often
         # declared by exactly one of: a used module / the module itself / nobody)
-        mods.append(gen_module(rng, f"m{k}", ctr, mods[-2:], p_decl=0.75 if k == 0 else 0.4))
+        # (half of the later modules see the first ones only through the module in between: re-export)
+        earlier = mods[-1:] if rng.random() < 0.5 else mods[-2:]
+        mods.append(gen_module(rng, f"m{k}", ctr, earlier, p_decl=0.75 if k == 0 else 0.35))
     return {"modules": mods}
 
 
@@ -158,7 +169,15 @@ def render(P, rng):
             n = spell(rng, d["name"])
             if d["k"] == "t":
                 a = f", {spell(rng, d['attr'])}" if d["attr"] else ""
-                out += [f"  type{a} :: {n}", "    integer :: i", f"  end type {n}"]
+                for r in m["refs"]:
+                    if r["k"] == "ext" and r["of"] == d["name"]:
+                        a += f", extends({spell(rng, r['name'])})"
+                out += [f"  type{a} :: {n}", f"    integer :: c{d['ent']}"]
+                binds = [r for r in m["refs"] if r["k"] == "bind" and r["of"] == d["name"]]
+                if binds:
+                    out.append("  contains")
+                    out += [f"    procedure, nopass :: b{r['id']} => {spell(rng, r['name'])}" for r in binds]
+                out.append(f"  end type {n}")
             elif d["k"] == "g":
                 h = f"zz_{d['name']}_{m['name']}"
                 helpers.append((h, d["name"] in TY, d["name"]))
@@ -178,7 +197,7 @@ def render(P, rng):
                 out += [f"  subroutine {n}()", f"  end subroutine {n}"]
         for h, is_ctor, tn in helpers:
             if is_ctor and any(d["k"] == "t" and d["name"] == tn for d in m["decls"]):
-                out += [f"  function {h}(i) result(r)", "    integer, intent(in) :: i", f"    type({tn}) :: r", "    r%i = i",
+                out += [f"  function {h}(i) result(r)", "    integer, intent(in) :: i", f"    type({tn}) :: r",
                         "  end function"]
             else:
                 out += [f"  function {h}(i) result(r)", "    integer, intent(in) :: i", "    integer :: r", "    r = i",
@@ -202,7 +221,7 @@ def tokens(P):
         for d in m["decls"]:
             t += ["D", d["k"], d["name"], str(d["ent"]), {None: "-", "private": "v", "public": "p"}[d["attr"]]]
         for r in m["refs"]:
-            t += ["X", str(r["id"]), {"ty": "ty", "pa": "pa", "ctor": "pr"}[r["k"]], r["name"]]
+            t += ["X", str(r["id"]), {"ty": "ty", "pa": "pa", "ctor": "pr", "ext": "ty", "bind": "pr"}[r["k"]], r["name"]]
         t.append(")")
     return t
 
@@ -276,10 +295,11 @@ def oracle(P):
     for m, (local, imp, _) in zip(P["modules"], frames(P)):
         local_names = {n for _, n in local}
         imp_names = {n for _, n in imp}
-        gen_ents = {d["ent"] for d in m["decls"] if d["k"] == "g"}
+        gen_ents = {d["ent"] for mm in P["modules"] for d in mm["decls"] if d["k"] == "g"}
+        proc_ents = {d["ent"] for mm in P["modules"] for d in mm["decls"] if d["k"] == "p"}
         for r in m["refs"]:
             n = r["name"].lower()
-            c = "t" if r["k"] == "ty" else "p"
+            c = "t" if r["k"] in ("ty", "ext") else "p"
             es = set(local.get((c, n), set())) | set(imp.get((c, n), set()))
             if n in local_names and n in imp_names:
                 exp[r["id"]] = SKIP
@@ -291,6 +311,8 @@ def oracle(P):
                 e = next(iter(es))
                 if r["k"] == "ctor" and e not in gen_ents:
                     exp[r["id"]] = SKIP
+                elif r["k"] == "bind" and e not in proc_ents:
+                    exp[r["id"]] = SKIP  # (a binding's target is a procedure, not a generic or abstract interface)
                 else:
                     exp[r["id"]] = e
             kinds[r["id"]] = (m, r)
@@ -334,6 +356,10 @@ def observe(ford, C, d, P, files):
         for r in am["refs"]:
             if r["k"] == "ctor":
                 slots[r["id"]] = ent(getattr(C.byname(fm.types, r["name"]), "constructor", None))
+            elif r["k"] == "ext":
+                slots[r["id"]] = ent(C.byname(fm.types, r["of"]).extends)
+            elif r["k"] == "bind":
+                slots[r["id"]] = ent(C.byname(C.byname(fm.types, r["of"]).boundprocs, f"b{r['id']}").bindings[0])
             else:
                 v = C.byname(fm.variables, f"v{r['id']}")
                 slots[r["id"]] = ent(v.proto[0] if v.proto else None)
@@ -463,7 +489,7 @@ def run_stream(rep, ford, drv, C, rng, tier, replay_cases):
             local_names = {nm for _, nm in fr[mi][0]}
             h["hidden_name_declared_by_user_module"] += len({nm for _, nm in hidden} & local_names)
             for r in m["refs"]:
-                c = "t" if r["k"] == "ty" else "p"
+                c = "t" if r["k"] in ("ty", "ext") else "p"
                 if (c, r["name"].lower()) in hidden and exp[r["id"]] != SKIP:
                     if exp[r["id"]] is None:
                         h["reference_to_hidden_name_expect_text"] += 1
@@ -502,6 +528,7 @@ def run_stream(rep, ford, drv, C, rng, tier, replay_cases):
             h["slots"] += 1
             ob = oslots.get(i)
             h["slots_text" if ob is None else "slots_resolved"] += 1
+            h["slot_kind_" + r["k"]] = h.get("slot_kind_" + r["k"], 0) + 1
             if r["k"] == "ctor":
                 h["constructor_slots"] += 1
                 h["constructor_slots_expect_none"] += e is None
@@ -512,7 +539,9 @@ def run_stream(rep, ford, drv, C, rng, tier, replay_cases):
             if ob != e:
                 h["oracle_fail"] += 1
                 what = {"ty": "type(%s) of variable v%d", "pa": "procedure(%s) of variable v%d",
-                        "ctor": "constructor of the derived type %s (slot %d)"}[r["k"]] % (r["name"], i)
+                        "ctor": "constructor of the derived type %s (slot %d)",
+                        "ext": f"parent type %s of the derived type {r.get('of')} (slot %d)",
+                        "bind": f"target %s of the binding b%d of the derived type {r.get('of')}"}[r["k"]] % (r["name"], i)
                 rep.failing_input({"stream": "access", "project": P, "files": files,
                                    "slot": f"module {m['name']}: {what}",
                                    "expected": describe(P, e), "observed": describe(P, ob),
